@@ -11,7 +11,7 @@ cd /verif || exit 3
 if [ -n "$(git -C /repo status --porcelain)" ]; then echo "/repo working tree not clean" >&2; exit 3; fi
 SAVE=$(mktemp -d /tmp/seeded-evidence.XXXXXX); cp evidence/*.json $SAVE/
 for d in seeded/$GLOB/; do
-  name=$(basename $d); prop=${name%%-*}; prop=${prop%[bcdefg]}
+  name=$(basename $d); prop=${name%%-*}; prop=${prop%[bcdefgh]}
   [ -f $d/patch.diff ] || continue
   if [ -f $d/OBSOLETE ]; then echo "$name - obsolete (no longer breaks the property on the repaired tree, see $d/OBSOLETE)"; continue; fi
   if ! git -C /repo apply /verif/$d/patch.diff 2>/dev/null; then echo "$name - exit=NOAPPLY"; continue; fi
